@@ -257,6 +257,7 @@ type Run struct {
 	mapOrderSym  bool
 	decided      map[int]bool
 	naux         int
+	stamp        int
 }
 
 func (r *Run) freshAux(name string, s Sort) *Term {
@@ -408,7 +409,7 @@ func (r *Run) model() bool {
 	vals := s.Values(terms)
 	for k := range r.inputs {
 		in := &r.inputs[k]
-		if in.Kind == "choice" {
+		if in.Kind == "choice" || in.Kind == "sched" {
 			continue
 		}
 		in.Vals = in.Vals[:0]
